@@ -669,8 +669,9 @@ class vacancyThermoKinetics(collections.namedtuple('vacancyThermoKinetics',
         return not self.__eq__(other)
 
     def __hash__(self):
-        return hash(self.pre.data.tobytes() + self.betaene.data.tobytes() +
-                    self.preT.data.tobytes() + self.betaeneT.data.tobytes())
+        # equal keys must hash equally: __eq__ compares values, so hash the values as 64-bit floats, with -0. as 0.
+        return hash(b''.join((np.asarray(a, dtype=float) + 0.).tobytes()
+                             for a in (self.pre, self.betaene, self.preT, self.betaeneT)))
 
     @staticmethod
     def vacancyThermoKinetics_representer(dumper, data):
